@@ -247,6 +247,7 @@ func runC02(c *Ctx) {
 // ---------------------------------------------------------------- C03
 
 func runC03(c *Ctx) {
+	defer runC03Relaxed(c)
 	n, per := 3000, 12
 	if c.Thorough {
 		n, per = 20000, 0
@@ -292,6 +293,52 @@ func runC03(c *Ctx) {
 			}
 		}
 	})
+}
+
+// runC03Relaxed: the level order with the administrator's user-namespace opt-in switched on (it waives the same three controls
+// at both levels, so the order must survive it), pods with hostUsers false / true / unset
+func runC03Relaxed(c *Ctx) {
+	r := NewRng(c.Seed + 303)
+	ev := newRecEvaluator()
+	minors := interestingMinors(false)
+	cat := catalogPods()
+	n := sizes(c, 400, 6000)
+	policy.RelaxPolicyForUserNamespacePods(true)
+	defer policy.RelaxPolicyForUserNamespacePods(false)
+	var ops []J
+	var gos [][]RevResult
+	var ins []J
+	for i := 0; i < n; i++ {
+		var p *corev1.Pod
+		if i%2 == 0 {
+			p = cat[r.Intn(len(cat))].Pod.DeepCopy()
+		} else {
+			p = genPod(r.Fork(), 3000000+i).Pod
+		}
+		p.Spec.HostUsers = []*bool{bp(false), bp(false), bp(false), nil, bp(true)}[i%5]
+		m := minors[i%len(minors)]
+		valid := apiValid(&p.Spec)
+		b, _ := ev.Eval(mkLV("baseline", m), p)
+		rs, _ := ev.Eval(mkLV("restricted", m), p)
+		c.Eval(2)
+		c.Tag("c03.relaxed")
+		if valid && allAllowed(rs) && !allAllowed(b) {
+			c.Violate(Finding{Desc: fmt.Sprintf("with the user-namespace opt-in on, an API-valid pod is allowed at restricted but denied at baseline at version %s", verName("", m)), Key: "order-relaxed",
+				Input: J{"minor": m, "relaxPolicyForUserNamespacePods": true, "pod": p}, Go: J{"baseline": bits(b), "restricted": bits(rs)}})
+		}
+		proj := projectPod(&p.ObjectMeta, &p.Spec)
+		for k, l := range []string{"baseline", "restricted"} {
+			ops = append(ops, J{"op": "evalPod", "level": l, "version": minorJSON(m), "relax": true, "pod": proj})
+			gos = append(gos, [][]RevResult{b, rs}[k])
+			ins = append(ins, J{"level": l, "minor": m, "relax": true, "pod": p})
+		}
+	}
+	policy.RelaxPolicyForUserNamespacePods(false)
+	for k, o := range c.Lean(ops) {
+		if lr := leanResults(o); allAllowed(lr) != allAllowed(gos[k]) {
+			c.Disagree(Finding{Desc: "verdict with the opt-in on differs from the model (relax = true)", Input: ins[k], Go: bits(gos[k]), Lean: bits(lr)})
+		}
+	}
 }
 
 var cachedRecEv *recEvaluator
